@@ -12,6 +12,11 @@ func Run(c *fw.Ctx) {
 	c.Cases("closed.scalar", c.N(18000, 300000), func(cs *fw.Case) { runClosedScalar(cs, cs.R) })
 	c.Cases("closed.wrapper", c.N(6000, 100000), func(cs *fw.Case) { runClosedWrapper(cs, cs.R) })
 	c.Cases("closed.vector", c.N(6000, 100000), func(cs *fw.Case) { runClosedMvn(cs, cs.R) })
+	// log-weights shifted by a common constant (-50, -700, -740, -1000, +700)
+	c.Cases("closed.shift.scalar", c.N(3000, 40000), func(cs *fw.Case) { withShift(cs, cs.Index, func() { runClosedScalar(cs, cs.R) }) })
+	c.Cases("closed.shift.wrapper", c.N(1500, 20000), func(cs *fw.Case) { withShift(cs, cs.Index, func() { runClosedWrapper(cs, cs.R) }) })
+	c.Cases("closed.shift.vector", c.N(2500, 30000), func(cs *fw.Case) { withShift(cs, cs.Index, func() { runClosedMvn(cs, cs.R) }) })
+	c.Cases("closed.shift.matrix", c.N(1000, 12000), func(cs *fw.Case) { withShift(cs, cs.Index, func() { runClosedMatrixId(cs, cs.R) }) })
 	c.Cases("numeric", c.N(900, 12000), func(cs *fw.Case) { runNumeric(cs, cs.R) })
 	// (b) EM trajectories
 	c.Cases("em.mixture.scalar", c.N(2400, 40000), func(cs *fw.Case) { runEmScalarMixture(cs, cs.R) })
